@@ -17,7 +17,7 @@ from vlib import cats, gen
 from vlib.core import HELD, SKIPPED, VIOLATED, Check, Scratch, result, case_bits
 
 TRANSFORMS = ["rotation", "rotation_to_pole", "rotation_across_ra0", "row_permutation", "centre_permutation",
-              "weight_scale", "split"]
+              "weight_scale", "split", "rotation_pole_between"]
 
 
 def close_rel(a, b, tol=1e-9):
@@ -74,10 +74,15 @@ class C13(Check):
         P = int(rng.integers(3, 7))
         r = np.deg2rad(rng.uniform(0.4, 1.0))
         spacing = r * rng.uniform(1.2, 1.8)
+        far = tr == "rotation_pole_between"
+        if far:
+            # compact patches far apart compared with their size, the largest scale just bridging the gap: the
+            # linking length (radii + scale) is only slightly larger than the distance between the centres
+            spacing = r / 0.3
         centres = cats.layout_centres(rng, P, spacing)
         nb = int(rng.integers(2, 5))
         edges = np.linspace(0.1, 1.0, nb + 1)
-        th = np.deg2rad(np.array([[0.02, 0.3], [0.1, float(np.rad2deg(spacing)) * 0.9]]))
+        th = np.deg2rad(np.array([[0.02, 0.3], [0.1, float(np.rad2deg(spacing)) * (0.6 if far else 0.9)]]))
         cfg = Configuration.create(rmin=np.rad2deg(th[:, 0]).tolist(), rmax=np.rad2deg(th[:, 1]).tolist(), unit="deg",
                                    edges=edges.tolist(), closed=str(rng.choice(["left", "right"])))
         th_edges = np.deg2rad(np.concatenate([np.asarray(cfg.scales.rmin, dtype=float).ravel(),
@@ -131,6 +136,9 @@ class C13(Check):
             ex = ex[np.argsort(gen.xyz_to_radec(ex)[0])]
             tables["rr"]["extra"] = ex
 
+        # half of the pipelines read their inputs in several chunks
+        chunksize = 37 if case_bits(case, "chunked") % 2 == 0 else None
+
         def build(tmp, tag, tabs, cen):
             cobj = cats.coords_obj(cen)
             c = {}
@@ -147,13 +155,13 @@ class C13(Check):
                     z_ = np.concatenate([zex, z_] if first else [z_, zex])
                 ra, dec = gen.xyz_to_radec(xyz_)
                 pid, _ = cats.nearest_centre(xyz_, cen)
-                c["rr"] = cats.create(tmp / f"{tag}-rr", cats.table(ra, dec, w=w_, z=z_, patch=pid))
+                c["rr"] = cats.create(tmp / f"{tag}-rr", cats.table(ra, dec, w=w_, z=z_, patch=pid), chunksize=chunksize)
                 cobj = c["rr"]
             for k, t in tabs.items():
                 if k in c:
                     continue
                 ra, dec = gen.xyz_to_radec(t["xyz"])
-                c[k] = cats.create(tmp / f"{tag}-{k}", cats.table(ra, dec, w=t["w"], z=t["z"]), centers=cobj)
+                c[k] = cats.create(tmp / f"{tag}-{k}", cats.table(ra, dec, w=t["w"], z=t["z"]), centers=cobj, chunksize=chunksize)
             return c
 
         def measure(c):
@@ -171,6 +179,11 @@ class C13(Check):
                 R = gen.random_rotation(rng)
             elif tr == "rotation_to_pole":
                 R = gen.rotation_taking(centres[int(rng.integers(P))], np.array([0.0, 0.0, rng.choice([-1.0, 1.0])]))
+            elif tr == "rotation_pole_between":
+                # the pole ends up on the border between two neighbouring patches: they meet across the pole,
+                # their right ascensions differ by about 180 degrees
+                mid = centres[0] + centres[1]
+                R = gen.rotation_taking(mid / np.linalg.norm(mid), np.array([0.0, 0.0, rng.choice([-1.0, 1.0])]))
             else:
                 target = gen.radec_to_xyz(np.array([rng.normal(0, 1e-3) % (2 * np.pi)]), np.array([rng.uniform(-1.2, 1.2)]))[0]
                 R = gen.rotation_taking(centres.mean(axis=0), target)
